@@ -86,6 +86,8 @@ def special_scripts():
     for path in ("raw", "default"):
         for consumer in ("cb", "iter", "iter-poll"):
             out.append({"path": path, "consumer": consumer, "first": 0, "no_first": True, "notifs": [], "term": "none", "term_pos": 0, "term_gap": 0.0, "trail": 0, "class": "no-first"})
+            # ... or the peer answers the registration request with a Reset
+            out.append({"path": path, "consumer": consumer, "first": 0, "no_first": "rst", "notifs": [], "term": "none", "term_pos": 0, "term_gap": 0.0, "trail": 0, "class": "no-first-rst"})
             for ef in ("2.05", "4.04"):
                 out.append({"path": path, "consumer": consumer, "first": 0, "early_final": ef, "notifs": [], "term": "final-" + ef, "term_pos": 0, "term_gap": 0.0, "trail": 2, "class": "early-final"})
         # the application cancels the observation from inside the callback that hands it the final response
@@ -364,8 +366,11 @@ def run_script(sc, seed, rep, case):
                 bw_registered(peer, src, m)
                 return
             if sc.get("no_first"):
-                # the registration request bounces: a transport error instead of any response
-                net.inject_error(C, P, 111, delay=0.0)
+                # the registration request bounces: a transport error (or a Reset) instead of any response
+                if sc["no_first"] == "rst":
+                    peer.send(src, rc.Msg(rc.RST, 0, m.mid, b"", (), b""))
+                else:
+                    net.inject_error(C, P, 111, delay=0.0)
                 state["t_total"] = 1.0
                 return
             opts = ((6, rc.uint_bytes(sc["first"])),) if sc["first"] is not None else ()
@@ -739,6 +744,17 @@ def judge(sc, box, res, rep, case):
         rep.monitor("terminal_signal")
         rep.monitor("failure_before_first_response")
         term = box["terminal"]
+        if sc["no_first"] == "rst":
+            # the message was rejected: request and observation end with a library error (an exception object)
+            if box["first"][0] != "exception" or not isinstance(box["first"][2], error.Error):
+                rep.violation("no-first-rst/request-outcome", "the registration request was reset, but the request did not fail with a library error", wit(), case)
+            elif box["delivered"]:
+                rep.violation("no-first-rst/delivery", "something was delivered although no response ever arrived", wit(), case)
+            elif len(term) != 1:
+                rep.violation("no-first-rst/terminal-signals-%d/%s-%s" % (len(term), sc["path"], sc["consumer"]), "the observation's end was signalled %d times instead of exactly once" % len(term), wit(), case)
+            elif not isinstance(term[0][2], error.Error):
+                rep.violation("no-first-rst/terminal-signal-not-a-library-error/%s-%s" % (sc["path"], sc["consumer"]), "registration request reset: the observation's end was signalled with %r, which is not an exception derived from the library's error base class" % (term[0][2],), wit(), case)
+            return
         if box["first"][0] != "exception" or not isinstance(box["first"][2], error.NetworkError):
             rep.violation("no-first/request-outcome", "the registration request bounced, but the request did not fail with a network error", wit(), case)
         elif box["delivered"]:
